@@ -10,7 +10,11 @@ use std::num::ParseIntError;
 //@include prelude/lit_env.rs
 //@include prelude/lit_lemmas.rs
 //@include prelude/visitor_lit_env.rs
+//@include prelude/chain_spec.rs
+//@item antlr/src/parser.rs :: struct LogicManager
 //@include prelude/visitor_bin_env.rs
+//@assume parser.expr
+//@assume parser.add_term
 //@verify visitor.not
 //@verify visitor.negate
 //@verify visitor.string
@@ -18,4 +22,7 @@ use std::num::ParseIntError;
 //@verify visitor.relation
 //@verify visitor.calc
 //@verify visitor.expr
+//@verify visitor.new_logic_manager
+//@verify visitor.cond_or
+//@verify visitor.cond_and
 //@include prelude/tail_std.rs
